@@ -46,6 +46,20 @@ CHECKS.update({
             'level_text': 'Unbounded proof: generic Rate functions, Mul<PQ> for Rate and every generated Mul<Rate>/Div<Rate> impl against functional specs; reciprocal lemmas.',
             'level_note': 'Trusted: as C01; as_qty transposed into Quantity (R1) and cross-checked by Kani.'},
 })
+CHECKS.update({
+    'C09': {'engine': 'kani+verus', 'design_ref': '5 C09', 'technique': 'Kani contract harnesses on the compiled registry functions (iter, constants, REF_UNIT, as_qty, unit_from_scale/from_scale, from_symbol) per type; expected order computed from the current declarations by the stated rule',
+            'level_text': 'Per type: loop-free / constant-bound harnesses with unwinding assertions; scale lookups over every f64 bit pattern; symbol lookups over every declared symbol (symbolic unit) and its one-character extensions / truncations. Arbitrary strings are bounded (thorough: concrete near misses).',
+            'level_note': 'Trusted: Kani/CBMC; std iterator/String code is executed as compiled MIR; declaration parser of the generator; arbitrary-string lookups are not explored beyond the listed families (bounded).'},
+    'C14': {'engine': 'kani', 'design_ref': '5 C14', 'technique': 'Kani contract harnesses on ConversionTable::convert with symbolic tables (N <= 4 rows) and on TEMPERATURE_CONVERTER; Verus lemmas over the extracted table constants',
+            'level_text': 'Selection contract (same unit -> identical value; first matching row; None iff no row) for every table of up to 4 rows over symbolic units; the temperature table is total over all ordered pairs; data flow amount*factor+offset on a bounded value set.',
+            'level_note': 'bounded: tables with more than 4 rows and the bit-exact affine map for arbitrary amounts are not covered by the quick tier; trusted: Kani/CBMC.'},
+    'C16': {'engine': 'kani', 'design_ref': '5 C16', 'technique': 'Kani loop-free harnesses over all i8 exponents, every prefix row against the SI brochure table, iteration order, all 1- and 2-byte ASCII abbreviations',
+            'level_text': 'Exhaustive over the finite parts (256 exponents, 25 rows, 128 + 16384 ASCII strings); complete proofs, no unwinding bound involved except the 25-element iteration.',
+            'level_note': 'Trusted: spec/si_prefixes.toml transcribes the SI brochure; names are compared with the library\'s capitalised spelling; non-ASCII / longer abbreviation strings other than the table\'s own are not explored.'},
+    'C18': {'engine': 'verus+kani', 'design_ref': '5 C18', 'technique': 'Verus: every extracted function verifies without a precondition other than the same-unit guard (all panic sites unreachable); Kani: automatic panic checks on the compiled lookups, _fit, converter, like and derived operators over all f64 bit patterns',
+            'level_text': 'f64 configuration: unbounded proof for the arithmetic paths (Verus) and complete symbolic execution over all bit patterns for the iterator/unwrap paths (Kani). Decimal configuration and formatting are not covered (stated in the evidence).',
+            'level_note': 'Not covered: fmt paths (C15), the decimal range implication (fpdec panics on overflow / zero divisor are a dependency contract). Kani checks "NaN on <op>" are IEEE results, not panics, and are excluded.'},
+})
 NOT_APPLICABLE = {
     'C06': 'quantifies over programs the type checker must reject; a function contract cannot state that an impl does not exist (DESIGN 7)',
     'C11': 'quantifies over arbitrary proc-macro inputs (syn token trees); parse/analyze/codegen are outside Verus\' subset and not symbolically executable by CBMC (DESIGN 7)',
@@ -53,6 +67,6 @@ NOT_APPLICABLE = {
     'C15': 'thin wrappers over core::fmt and float/decimal-to-text conversion; no verifier here models core::fmt, stubbing it removes what the property states (DESIGN 7)',
     'C17': 'behaviour is that of serde_derive/serde_json/fpdec text codecs (dependencies); no repository function to put under contract (DESIGN 7)',
     'C19': 'a property of the Cargo feature lattice / cfg gates decided by cargo check per configuration, not by any contract (DESIGN 7)',
-    'C09': 'not yet built',
-    'C14': 'not yet built', 'C16': 'not yet built', 'C18': 'not yet built',
+    
+    
 }
